@@ -60,10 +60,42 @@ def make_field(kind, fam, geometry, rng):
     raise KeyError(kind)
 
 
-def evaluate(run, items, x, label, rng, conservative, order=0, inplace=False):
+def evaluate(run, items, x, label, rng, conservative, order=0, inplace=False, more=True):
     """Drive fun_items/jac_items in different call orders (out= buffers inside the items are state)."""
+    _evaluate(run, items, x, label, rng, conservative, order, inplace)
+    if more:
+        # the same items again the way later Newton iterations see them: after an evaluation at another state (3), with a
+        # container that is not the items' own (4), with threaded assembly (5)
+        _evaluate(run, items, x, label, rng, conservative, 3 + order % 3, inplace)
+
+
+def _evaluate(run, items, x, label, rng, conservative, order, inplace):
+    import copy
     from felupe.tools._newton import fun_items, jac_items
     settle = MI.needs_settle(items)
+    kw = {}
+    if order == 3:
+        keep = [f.values.copy() for f in x.fields]
+        for f in x.fields:
+            f.values[:] = f.values + 0.02 * max(1.0, float(np.abs(f.values).max())) * rng.standard_normal(f.values.shape)
+        fun_items(items, x)
+        jac_items(items, x)
+        for f, v in zip(x.fields, keep):
+            f.values[:] = v
+        run.units["order:after-another-state"] += 1
+    elif order == 4:
+        x = copy.deepcopy(x)
+        run.units["order:foreign-container"] += 1
+    elif order == 5:
+        kw = {"parallel": True}
+        run.units["order:parallel"] += 1
+    if kw:
+        fun_items(items, x, **kw)
+        if settle:
+            fun_items(items, x, **kw)
+        K = jac_items(items, x, **kw)
+        MI.check_tangent(run, items, x, K, label, conservative=conservative, rng=rng, inplace=inplace)
+        return
     fun_items(items, x)
     if settle:
         fun_items(items, x)
@@ -95,7 +127,10 @@ def case_solid(kind, fam, geometry, mat, rep):
             label = "SolidBody[%s,%s]" % (mat, kind)
         else:
             umat = materials(rng, mat)
-            body = fem.SolidBody(umat, field)
+            use_mult = (len(fam) + len(mat) + rep) % 2 == 1
+            body = fem.SolidBody(umat, field, **({"multiplier": float(rng.uniform(0.3, 2))} if use_mult else {}))
+            if use_mult:
+                run.units["solidbody-multiplier"] += 1
             if mat == "OgdenRoxburgh":
                 # stored state variables from a prior history: drive the body through a larger state and commit
                 big = field.copy()
@@ -141,7 +176,9 @@ def case_history_material(which, kind, fam, rep):
             Fq = field.extract()[0]
             W = np.asarray(umat.material.function([Fq, None])[0], float)
             Wmax = np.asarray(body.results.statevars[0], float)
-            if np.min(np.abs(W - Wmax)) < 2e-3 * max(maxabs(Wmax), maxabs(W)):
+            # (the model also switches its softening derivative off where eta is within 1e-5 of one, i.e. z < ~3e-5)
+            z = np.abs(Wmax - W) / (umat.m + umat.beta * np.maximum(Wmax, W))
+            if np.min(np.abs(W - Wmax)) < 2e-3 * max(maxabs(Wmax), maxabs(W)) or np.min(z) < 2e-4:
                 run.skip("items.tangent", "a quadrature point sits on the loading/unloading switch of the pseudo-elastic model (kink)")
                 return
         label = "SolidBody[%s,history]" % which
@@ -156,7 +193,23 @@ def case_nearly_incompressible(kind, fam, rep):
         rng = rng_for(run.seed, "C01", "ni", kind, fam, rep)
         field, mesh, reg = make_field(kind, fam, "distorted", rng)
         random_state(rng, field)
-        body = fem.SolidBodyNearlyIncompressible(fem.NeoHooke(mu=float(rng.uniform(0.5, 2))), field, bulk=float(rng.uniform(10, 500)))
+        # isochoric parts with and without an out= argument, without a volumetric part of their own, with state variables
+        which = ["NeoHooke", "tt.yeoh", "NeoHookeCompressible", "OgdenRoxburgh"][rep % 4]
+        umat = {"NeoHooke": lambda: fem.NeoHooke(mu=float(rng.uniform(0.5, 2))),
+                "tt.yeoh": lambda: fem.Hyperelastic(fem.yeoh, C10=0.5, C20=-0.05, C30=0.02),
+                "NeoHookeCompressible": lambda: fem.NeoHookeCompressible(mu=float(rng.uniform(0.5, 2))),
+                "OgdenRoxburgh": lambda: fem.OgdenRoxburgh(fem.NeoHooke(mu=1.0), r=3.0, m=1.0, beta=0.1)}[which]()
+        body = fem.SolidBodyNearlyIncompressible(umat, field, bulk=float(rng.uniform(10, 500)))
+        if which == "OgdenRoxburgh":
+            # committed history from a larger state; the values are changed in place (the condensed body keeps a reference
+            # to the value array of the field it was built on, so handing it another container would overwrite this one)
+            keep = field[0].values.copy()
+            field[0].values[:] = 2.5 * keep
+            body.assemble.vector(field)
+            body.results.update_statevars()
+            field[0].values[:] = keep
+            body.assemble.vector(field)
+        run.units["ni-umat:" + which] += 1
         label = "SolidBodyNearlyIncompressible[%s]" % kind
         evaluate(run, [body], field, label, rng, conservative=True, order=rep % 3)
         run.configs.add(str((label, fam)))
@@ -192,13 +245,23 @@ def case_load(what, kind, rep):
         field, fb, mesh = boundary_field(kind, rng, closed)
         random_state(rng, field)
         solid = fem.SolidBody(fem.NeoHooke(mu=1.0, bulk=2.0), field)
+        variant = (rep // 2) % 3  # 0: as constructed, 1: value replaced by update(), 2: general value (array pressure, non-symmetric stress)
         if what == "pressure":
-            load = fem.SolidBodyPressure(fb, pressure=float(rng.uniform(-1, 1)))
+            pv = rng.uniform(-1, 1, fb.region.dV.shape) if variant == 2 else float(rng.uniform(-1, 1))
+            load = fem.SolidBodyPressure(fb, pressure=float(rng.uniform(-1, 1)) if variant == 1 else pv)
+            if variant == 1:
+                load.assemble.vector(field)
+                load.update(pv)
             name = "SolidBodyPressure[%s]" % kind
         else:
             s = rng.standard_normal((3, 3))
-            load = fem.SolidBodyCauchyStress(fb, cauchy_stress=s + s.T)
+            sv = s if variant == 2 else s + s.T
+            load = fem.SolidBodyCauchyStress(fb, cauchy_stress=(s - s.T + np.eye(3)) if variant == 1 else sv)
+            if variant == 1:
+                load.assemble.vector(field)
+                load.update(sv)
             name = "SolidBodyCauchyStress[%s]" % kind
+        run.units["load-variant:%s:%d" % (what, variant)] += 1
         with_solid = bool((rep // 2) % 2)
         items = [solid, load] if with_solid else [load]
         label = name + ("+SolidBody" if with_solid else "")
@@ -231,12 +294,14 @@ def case_multipoint(contact, rep):
             elif state == "touching":
                 # the wall (centre point) touches the surface in the reference configuration: zero reference gap
                 mesh.points[c, 2] = 1.0
-                field[0].values[pts, 2] += rng.choice([-1.0, 1.0], len(pts)) * rng.uniform(0.15, 0.3, len(pts))
+                field[0].values[:] *= 0.3
+                field[0].values[pts, 2] += rng.choice([-1.0, 1.0], len(pts)) * rng.uniform(0.2, 0.3, len(pts))
             elif state == "all-axes":
                 # contact in every axis; points at x = 0.5 or y = 0.5 have a zero reference gap to the centre in that axis
                 skip = (0, 0, 0)
-                field[0].values[pts, :2] += rng.choice([-1.0, 1.0], (len(pts), 2)) * rng.uniform(0.15, 0.3, (len(pts), 2))
-                field[0].values[pts[::2], 2] += 0.6
+                field[0].values[:] *= 0.3  # small noise only: the gaps below stay clear of the switching point
+                field[0].values[pts, :2] += rng.choice([-1.0, 1.0], (len(pts), 2)) * rng.uniform(0.2, 0.3, (len(pts), 2))
+                field[0].values[pts[::2], 2] += 0.7
             # keep every gap of an active axis at least 0.1 away from the switching point
             act = [ax for ax in range(3) if not skip[ax]]
             gap = (mesh.points[c] + field[0].values[c])[act] - (mesh.points[pts] + field[0].values[pts])[:, act]
@@ -249,8 +314,10 @@ def case_multipoint(contact, rep):
             skip = [(0, 0, 0), (0, 1, 0), (1, 1, 0)][rep % 3]
             it = fem.MultiPointConstraint(field, points=pts, centerpoint=c, skip=skip, multiplier=float(rng.uniform(10, 1000)))
             label = "MultiPointConstraint"
-        evaluate(run, [it, solid] if rep % 2 else [it], field, label, rng, conservative=True, order=rep % 3)
-        run.configs.add(str((label, rep % 2)))
+        # the large relative point motions of the touching / all-axes states are no admissible states of a solid
+        with_solid = bool(rep % 2) and not (contact and state in ("touching", "all-axes"))
+        evaluate(run, [it, solid] if with_solid else [it], field, label, rng, conservative=True, order=rep % 3)
+        run.configs.add(str((label, with_solid)))
     return fn
 
 
@@ -343,11 +410,11 @@ def cases(tier, seed):
     for kind, fams in (("3d", ("hexahedron", "hexahedron20", "tetra")), ("planestrain", ("quad", "quad8")),
                        ("axisymmetric", ("quad", "quad9"))):
         for fam in fams:
-            for rep in range(3):
+            for rep in range(4):
                 out.append(("ni:%s:%s:%d" % (kind, fam, rep), case_nearly_incompressible(kind, fam, rep)))
     for what in ("pressure", "cauchy"):
         for kind in ("hex", "planestrain", "axisymmetric"):
-            for rep in range(4):
+            for rep in range(6):
                 out.append(("load:%s:%s:%d" % (what, kind, rep), case_load(what, kind, rep)))
     for contact in (False, True):
         for rep in range(10 if contact else 6):
@@ -373,6 +440,9 @@ def _required():
               "SolidBodyNearlyIncompressible[3d]", "MultiPointConstraint", "MultiPointContact[closed]", "FormItem"):
         req.append("tangent-symmetry:" + u)
     req.append("multi-item-list-with-multiplier=-1")
+    req += ["order:after-another-state", "order:foreign-container", "order:parallel", "solidbody-multiplier"]
+    req += ["ni-umat:" + w for w in ("NeoHooke", "tt.yeoh", "NeoHookeCompressible", "OgdenRoxburgh")]
+    req += ["load-variant:%s:%d" % (w, v) for w in ("pressure", "cauchy") for v in (0, 1, 2)]
     return req
 
 
